@@ -21,11 +21,12 @@ import (
 // order of In/Out events in the trace is the order in which the client took in and
 // emitted frames.
 type MemSock struct {
-	Rec  *Recorder
-	TCP  bool
-	Poll time.Duration // fallback retry period while a frame waits for the client
-	OnTx func(Frame)   // called for every frame the client transmits (after the Out event)
-	OnIn func(Frame)   // called when the client has taken a frame (under the recorder lock)
+	Rec       *Recorder
+	TCP       bool
+	Poll      time.Duration // fallback retry period while a frame waits for the client
+	OnTx      func(Frame)   // called for every frame the client transmits (after the Out event)
+	OnIn      func(Frame)   // called when the client has taken a frame (under the recorder lock)
+	DiscDelay time.Duration // the socket write of a disconnect request takes this long
 
 	mu       sync.Mutex
 	rxq      []Frame
@@ -161,11 +162,14 @@ func (s *MemSock) Send(p knxnet.ServicePackable) error {
 	s.mu.Lock()
 	fail := s.failSend
 	s.mu.Unlock()
+	f := Build(p)
 	if fail || s.IsClosed() {
-		s.Rec.Simple("OutErr", -1, -1, -1, "")
+		s.Rec.FrameEv("OutErr", f, -1)
 		return errors.New("sim: socket send failed")
 	}
-	f := Build(p)
+	if s.DiscDelay > 0 && f.Svc == "DiscReq" {
+		time.Sleep(s.DiscDelay)
+	}
 	s.Rec.FrameEv("Out", f, -1)
 	if s.OnTx != nil {
 		s.OnTx(f)
